@@ -28,6 +28,116 @@ impl Known {
     }
 }
 
+/// A piece of stream text: characters (a terminal hands `print_char` chars, not bytes, and they need not be Latin-1).
+/// Serialises as a readable escaped string: printable ASCII as is, `\\` for a backslash, `\u{hex}` for everything else
+/// (`\xNN` is accepted on input as well).
+#[derive(Clone, PartialEq, Eq, Hash, Default)]
+pub struct Text(pub Vec<char>);
+
+impl Text {
+    /// bytes read as Latin-1
+    pub fn latin1(b: impl AsRef<[u8]>) -> Text {
+        Text(b.as_ref().iter().map(|c| *c as char).collect())
+    }
+    pub fn escaped(&self) -> String {
+        let mut s = String::with_capacity(self.0.len() + 8);
+        for &c in &self.0 {
+            match c {
+                '\\' => s.push_str("\\\\"),
+                ' '..='~' => s.push(c),
+                _ => s.push_str(&format!("\\u{{{:x}}}", c as u32)),
+            }
+        }
+        s
+    }
+    pub fn unescape(s: &str) -> Result<Text, String> {
+        let v: Vec<char> = s.chars().collect();
+        let mut out = Vec::with_capacity(v.len());
+        let mut i = 0;
+        while i < v.len() {
+            if v[i] != '\\' {
+                out.push(v[i]);
+                i += 1;
+                continue;
+            }
+            match v.get(i + 1) {
+                Some('\\') => {
+                    out.push('\\');
+                    i += 2;
+                }
+                Some('x') if i + 3 < v.len() => {
+                    let h: String = v[i + 2..i + 4].iter().collect();
+                    out.push(u8::from_str_radix(&h, 16).map_err(|e| e.to_string())? as char);
+                    i += 4;
+                }
+                Some('u') if v.get(i + 2) == Some(&'{') => {
+                    let end = v[i + 3..].iter().position(|c| *c == '}').ok_or("unterminated \\u{")? + i + 3;
+                    let h: String = v[i + 3..end].iter().collect();
+                    let n = u32::from_str_radix(&h, 16).map_err(|e| e.to_string())?;
+                    out.push(char::from_u32(n).ok_or("not a char")?);
+                    i = end + 1;
+                }
+                _ => return Err(format!("bad escape at {i}")),
+            }
+        }
+        Ok(Text(out))
+    }
+}
+
+impl std::fmt::Debug for Text {
+    fn fmt(&self, f: &mut std::fmt::Formatter<'_>) -> std::fmt::Result {
+        write!(f, "t\"{}\"", self.escaped())
+    }
+}
+impl serde::Serialize for Text {
+    fn serialize<S: serde::Serializer>(&self, s: S) -> Result<S::Ok, S::Error> {
+        s.serialize_str(&self.escaped())
+    }
+}
+impl<'de> serde::Deserialize<'de> for Text {
+    fn deserialize<D: serde::Deserializer<'de>>(d: D) -> Result<Self, D::Error> {
+        let s = <String as serde::Deserialize>::deserialize(d)?;
+        Text::unescape(&s).map_err(serde::de::Error::custom)
+    }
+}
+impl std::ops::Deref for Text {
+    type Target = [char];
+    fn deref(&self) -> &[char] {
+        &self.0
+    }
+}
+
+pub fn push_ascii(out: &mut Vec<char>, b: &[u8]) {
+    out.extend(b.iter().map(|c| *c as char));
+}
+
+/// longest pause an emulation may ask the terminal for (IGS: `t` 30 s at most, `q` 180 vsyncs, flood fill 100 ms)
+pub const MAX_PAUSE_MS: u32 = 30_000;
+
+/// the text grid of the table parts: lengths x filler alphabets x {no lead, one ASCII character in front}
+pub const TEXT_LENGTHS: [usize; 12] = [0, 1, 2, 127, 128, 129, 130, 255, 256, 257, 260, 1000];
+/// filler alphabets 0..=3: ASCII, Latin-1 letters, characters above U+00FF, control characters
+/// (a fifth, the command's own terminator / escape characters, is supplied by the emulation)
+pub const ALPHABETS: [&[char]; 4] = [
+    &['A', 'b', ' ', 'x', '7', '.'],
+    &['\u{e4}', '\u{e9}', '\u{fc}', '\u{df}', '\u{ff}', '\u{c5}', '\u{a0}'],
+    &['\u{20ac}', '\u{2588}', '\u{3a9}', '\u{1f600}', '\u{100}'],
+    &['\u{0}', '\u{7}', '\u{8}', '\u{9}', '\u{c}', '\u{1b}', '\u{7f}', '\u{1a}'],
+];
+
+pub fn grid_text(len: usize, alphabet: &[char], lead: bool) -> Vec<char> {
+    let mut v = Vec::with_capacity(len);
+    if lead && len > 0 {
+        v.push('x');
+    }
+    let mut k = 0;
+    while v.len() < len {
+        v.push(alphabet[k % alphabet.len()]);
+        k += 1;
+    }
+    v
+}
+
 /// A panic signature carries the panic message; messages that quote input text (`str` slicing: "... is not a char
 /// boundary; it is inside 'x' (bytes #..#) of `text`") would give one key per text. Quoted parts are blanked.
 pub fn normalise_panic_key(sig: &str) -> String {
